@@ -342,6 +342,42 @@ pub fn suite<S: HasR>(mon: &mut Monitor, api: &MatApi<S>) {
                 }
             }
         }
+        // scalar scaling and entry-wise sums are one IEEE operation per stored entry: exact, for every scalar incl. subnormal,
+        // huge and non-finite ones (a scalar division implemented as a multiplication by the reciprocal is off by an ulp for
+        // most divisors and by everything for subnormal ones)
+        fn prim<S: Fl>(op: u8, a: S, b: S) -> S {
+            if S::NAME == "f32" {
+                let (x, y) = (f32::from_bits(a.bits() as u32), f32::from_bits(b.bits() as u32));
+                S::from_bits64((match op { 0 => x + y, 1 => x - y, 2 => x * y, _ => x / y }).to_bits() as u64)
+            } else {
+                let (x, y) = (f64::from_bits(a.bits()), f64::from_bits(b.bits()));
+                S::from_bits64((match op { 0 => x + y, 1 => x - y, 2 => x * y, _ => x / y }).to_bits())
+            }
+        }
+        for it in 0..iters / 4 {
+            let pickv = |r: &mut Rng| -> S { match it % 3 { 0 => S::random_bits(r), 1 => *r.pick(S::lattice()), _ => vcommon::fl::hostile::<S>(r) } };
+            let a: Vec<S> = (0..n * n).map(|_| pickv(&mut rng)).collect();
+            let b: Vec<S> = (0..n * n).map(|_| pickv(&mut rng)).collect();
+            let sc = pickv(&mut rng);
+            c.event(64 + it % 64, true);
+            let mut check = |c: &mut OpCtx, nm: &'static str, op: u8, got: Vec<S>, rhs: &dyn Fn(usize) -> S| {
+                for k in 0..n * n {
+                    let want = prim::<S>(op, a[k], rhs(k));
+                    if !vcommon::fl::ieq(got[k], want) {
+                        if c.wants_witness("entry_mismatch", &[nm]) {
+                            c.violation("entry_mismatch", &[nm], format!("A={} rhs entry/scalar={}", show_m(&a), rhs(k).hex()), show_m(&got), format!("entry {}: {}", k, want.hex()), "one IEEE operation per stored entry".into());
+                        } else {
+                            c.st.violations += 1;
+                        }
+                        break;
+                    }
+                }
+            };
+            for (nm, f) in &api.scale { check(&mut c, nm, 2, f(&a, sc), &|_| sc); }
+            for (nm, f) in &api.div_scalar { check(&mut c, nm, 3, f(&a, sc), &|_| sc); }
+            for (nm, f) in &api.add { check(&mut c, nm, 0, f(&a, &b), &|k| b[k]); }
+            for (nm, f) in &api.sub { check(&mut c, nm, 1, f(&a, &b), &|k| b[k]); }
+        }
         c.sample(format!("{}: transpose/neg on random bit patterns and lattice values", ty));
         mon.end(c);
     }
